@@ -37,6 +37,10 @@ class DeleteContext():
         # todo: improve imports. Remove circular ones.
         from lena.flow import get_data_context
         data, context = get_data_context(value)
+        if not self._keyl:
+            # empty key removes the entire context
+            context.clear()
+            return value
         subcont_key, key = self._keyl[:-1], self._keyl[-1]
         try:
             subcont = get_recursively(context, subcont_key)
@@ -45,6 +49,8 @@ class DeleteContext():
 
         try:
             del subcont[key]
-        except KeyError:
+        except (KeyError, TypeError):
+            # no such key, or the path ends in a value
+            # that is not a dictionary
             pass
         return value
